@@ -2,8 +2,14 @@
 from ekw import ctrl_check
 
 PROPERTY = "C01"
-CLAIMED = False
-NOT_CLAIMED_REASON = "model, correspondence and oracle exist (shared with C02/C03); property theorems not yet proved in this round"
+LEVEL_TEXT = ("Lean theorems over the small-step system controller x abstract executors (Model/Ctrl.lean): in every reachable state every stored copy "
+              "and every delivered output equals the sequential denotation `den` (seqEval: tasks in order); when run() returns every requested "
+              "output has been delivered with that value; two finished runs on different clusters/placements/event orders agree (c01_independent). "
+              "Proved from the 7-tier system invariant (InvAll, ~90 conjuncts) by induction over steps, for any order/batching of events and any "
+              "interleaving of executor steps. Tied to the real controller by per-phase state correspondence (SimBridge) and a sequential-"
+              "interpreter oracle.")
+LEVEL_NOTE = ("modelled, not verified: scheduler/api.py initialize/plan, scheduler/assign.py build_assignment + the pops of _assignment_heuristic, controller/act.py act/flush_queues, controller/notify.py notify/consider_*, impl.run loop skeleton (Model/Ctrl.lean, one Lean function per Python function). Abstracted as an oracle argument validated for admissibility by the model and supplied from what the real run chose: which (idle worker, computable task) pairs the distance/overhead heuristics and host->component migration pick per round, and which `available` host is the transmit source; theorems quantify over all admissible choices. Executors are abstract (Env; SimBridge mirrors it): a dispatched task runs once its inputs are on its host and publishes outputs in index order; transmit/fetch read the source store; purge is immediate. Hypothesis WF: tasks topologically numbered, inputs duplicate-free, >=1 output per task, requested outputs exist, worker ids distinct (the generator guarantees it). Task values are uninterpreted terms: argument binding inside a task is C10, byte-faithful copies are C07, real (cloud)pickle is sampled only.")
+TECHNIQUE = "Lean 4 inductive system invariant (StoreSound + fetch pipeline) over a small-step transition system, with differential state correspondence against the real controller driven through SimBridge"
 LEAN_PROPS = ["EkwVerif.Props.C01"]
 LEAN_DRIVERS = ["Ctrl"]
 RULE = ctrl_check.RULE
